@@ -259,5 +259,7 @@ class MultipartDecoder:
 def safe_decode(src: Union[bytes, bytearray], charset: str) -> str:
     try:
         return src.decode(charset)
-    except (UnicodeDecodeError, LookupError):
+    except (ValueError, LookupError):
+        # UnicodeDecodeError is a ValueError; so are the plain UnicodeError of the
+        # "undefined" codec and a NUL byte in the charset name
         return src.decode("latin-1")
